@@ -1428,7 +1428,7 @@ def structured_variants(rng):
     origin = [Fr(rng.randint(-8, 8)) * sc for _ in range(3)]
     spacing = [Fr(rng.randint(1, 4)) * sc for _ in range(3)]
     ords = [[origin[d] + spacing[d] * i for i in range(ext[d] + 1)] for d in range(3)]
-    where = rng.choice(["none", "none", "meshed", "flat", "spacing", "origin"])
+    where = rng.choice(["none", "none", "meshed", "flat", "spacing", "origin", "near_tol"])
     if long_image:
         where = "spacing_small"
     d = rng.randrange(3)
@@ -1467,6 +1467,17 @@ def structured_variants(rng):
     elif where == "origin" and kind == "image":
         o2[d] += delta
         changed = ("origin", d)
+    elif where == "near_tol":
+        # the whole grid shifted along one direction by 0.6 .. 3 times the default absolute tolerance 1e-8 * max|coordinate|
+        mxc = max(abs(x) for o in ords for x in o)
+        if mxc > 0:
+            tol_dy = Fr(1, 2 ** 80)
+            while tol_dy * 2 < mxc / 10 ** 8:
+                tol_dy *= 2
+            shift = tol_dy * Fr(rng.randint(5, 12), 4)
+            o2[d] += shift
+            ords2[d] = [x + shift for x in ords2[d]]
+            changed = ("shift-near-tolerance", d, str(shift))
     f = lambda l: tuple(float(x) for x in l)  # noqa: E731
 
     def pts_of(o, s, od):
@@ -1645,6 +1656,25 @@ def run_c16(ctx):
             mk = lambda o, s_: f"{{| im_extents := {ext}; im_origin := {qv(o)}; im_spacing := {qv(s_)}; im_basis := identity3 |}}"  # noqa: E731
             img_exprs.append(f"image_equals {lib.cqfrac(rel)} {lib.cqfrac(ab)} {mk(canon['origin'], canon['spacing'])} {mk(canon['origin2'], canon['spacing2'])}")
             img_meta.append((canon, res["ab"]))
+        # the explicit representation of the same two grids (points and connectivity handed to Mesh): its default tolerances and
+        # its answer are the reference for the structured classes
+        try:
+            with quiet():
+                warnings.simplefilter("ignore")
+                ea = Mesh(np.asarray(a.points), [(ct, np.asarray(a.connectivity(ct))) for ct in a.cell_types])
+                eb = Mesh(np.asarray(b.points), [(ct, np.asarray(b.connectivity(ct))) for ct in b.cell_types])
+                exp_eq = bool(ea.equals(eb)) and bool(eb.equals(ea))
+                tol_s, tol_e = float(a.absolute_tolerance), float(ea.absolute_tolerance)
+        except Exception as e:  # noqa: BLE001
+            ctx.violation("E4", f"explicit representation of a structured mesh raised {type(e).__name__}: {e}", canon)
+            continue
+        ctx.tie("T2 default tolerances of a structured mesh = those of its explicit representation")
+        if abs(tol_s - tol_e) > 1e-9 * max(tol_s, tol_e):
+            ctx.violation("E4", f"default absolute tolerance of the {canon['kind']} mesh is {tol_s!r}, that of the explicit mesh with the "
+                                f"same points is {tol_e!r} (1e-8 times the largest coordinate magnitude)", canon)
+        elif res["ab"] and not exp_eq and not (canon["changed"] and canon["changed"][0] == "spacing-below-tolerance"):
+            ctx.violation("E4", f"{canon['kind']} meshes compare equal although the explicit point/connectivity representation of the "
+                                f"same grids compares unequal: changed {canon['changed']}", canon, impl=res)
         if res["ab"] != res["ba"]:
             ctx.violation("E4", f"structured equals is not symmetric: {res}", canon, impl=res)
         elif res["ab"] and worst > 4 * thr:
